@@ -327,7 +327,18 @@ func c30run(c *runner.Ctx) runner.Result {
 		for _, tf := range c30tfs[:3] {
 			k := newC30chk(tf, year, cfg, local, other, rs2)
 			chks = append(chks, k)
-			exhaustive := c.Thorough() && (tf.d > time.Second || year == 2011 || year == 2019)
+			// thorough: every interval of the year for 30Sec; for 10Sec in leap years, 2011, 2014 and 2019; for 1Sec in 2019
+			// (zone configs with time.Local == configured zone) and 2011 (Europe/Moscow configs)
+			var exhaustive bool
+			switch {
+			case !c.Thorough():
+			case tf.d == 30*time.Second:
+				exhaustive = true
+			case tf.d == 10*time.Second:
+				exhaustive = year%4 == 0 || year == 2011 || year == 2014 || year == 2019
+			default:
+				exhaustive = (year == 2019 && z.cfg == z.local && !z.yearlen) || (year == 2011 && z.yearlen)
+			}
 			if exhaustive {
 				for ord := int64(0); ord < k.needSlots; ord++ {
 					k.gridInterval(ord)
@@ -352,7 +363,7 @@ func c30run(c *runner.Ctx) runner.Result {
 				}
 				n := 150000
 				if c.Thorough() {
-					n = 1000000
+					n = 400000
 				}
 				for j := 0; j < n; j++ {
 					k.gridInterval(r.I64n(k.needSlots))
@@ -430,7 +441,7 @@ func init() {
 		ID:    "C30",
 		Level: "exploration",
 		Rule: "case = (configured zone, time.Local, year, part); part 0 enumerates every interval of the year for 1Min..4H and every day but January 1 for 1D, " +
-			"part 1 covers 1Sec/10Sec/30Sec (2 h of consecutive intervals around every UTC-offset transition, both year edges and the leap-day edge, plus seeded intervals; thorough: every interval for 10Sec/30Sec and for 1Sec in 2011 and 2019), " +
+			"part 1 covers 1Sec/10Sec/30Sec (2 h of consecutive intervals around every UTC-offset transition, both year edges and the leap-day edge, plus seeded intervals; thorough: every interval for 30Sec, for 10Sec in 11 of the 32 years and for 1Sec in one year per zone config with time.Local == configured zone), " +
 			"part 2 is 1D on January 1 (aims at F-JAN1); each interval is probed at its first and last nanosecond and at seeded instants, every fifth timestamp expressed in a different Location; " +
 			"zone configs 9-11 (Europe/Moscow) aim at years whose length differs from 365/366 days; a case is non-trivial when it checked > 0 timestamps, distinct by (zone config, year, part)",
 		Assumptions: []string{
